@@ -9,10 +9,12 @@ Reading that is formalised (per request, `reqOk`):
   (S) sound          a policy is applied only if it was declared for the request's method and its declared
                      pattern `matches` the request URL (`Spec.UrlMatch`);
   (M) most specific  the applied policy's pattern is at least as specific (`specLE`) as every declared
-                     pattern that matches the URL — except patterns that were `passedOver`: the applied
-                     pattern ends in `*` and the other pattern follows the same trie path up to that `*` and
-                     continues with a literal/parameter there (the lookup never backtracks, it only falls back
-                     to the deepest wildcard it has seen);
+                     pattern that matches the URL (a trailing `*` matches any remainder INCLUDING none) —
+                     except patterns that were `passedOver` AND are `shadowed`: the applied pattern ends in
+                     `*`, the other pattern follows the same trie path up to that `*`, continues there, and
+                     further down has a parameter where a third declared pattern has the literal equal to the
+                     request's segment (the lookup takes the literal, never backtracks, and only falls back to
+                     the deepest wildcard it has seen);
   (P) params         every extracted (name, value) is `{name}` in the applied pattern at a position where the
                      request has segment `value`, and every parameter position of the pattern is reported
                      (`expectedParams`);
@@ -154,8 +156,32 @@ def soundFor (eps : List Endpoint) (method : String) (u : Url) (a : Answer) (e :
   a.rem == (group eps method e.parts).flatMap enabledRemedies &&
   a.diag == (group eps method e.parts).flatMap enabledDiags
 
+/-- The patterns that continue along trie edge `k`, each without its first part. -/
+def stepP (k : Key) (pats : List Pattern) : List Pattern :=
+  pats.filterMap fun p => match p with
+    | a :: rest => if a.seg.key = k then some rest else none
+    | [] => none
+
+def segIsLit : Seg → Bool
+  | .lit _ => true
+  | _ => false
+
+/-- `shadowed pats q u`: walking `u` along `q`, at some position `q` has a PARAMETER where another declared
+    pattern on the same trie path has the LITERAL equal to the request's segment.  The lookup prefers the
+    literal child and never comes back: `q` cannot be reached although it may match. -/
+def shadowed : List Pattern → Pattern → Url → Bool
+  | pats, a :: q, u :: us =>
+    (a.seg.isPar && segIsLit u.seg && pats.any (fun r => match r with
+      | b :: _ => b.seg == u.seg
+      | [] => false)) ||
+    shadowed (stepP a.seg.key pats) q us
+  | _, _, _ => false
+
+/-- (M) the applied pattern `e` is at least as specific as every declared pattern that matches — except a
+    pattern that was passed over in favour of the applied `*` BECAUSE it is shadowed (no backtracking). -/
 def mostSpecificFor (eps : List Endpoint) (u : Url) (e : Endpoint) : Bool :=
-  eps.all fun e' => !(«matches» e'.parts u) || specLE e'.parts e.parts || passedOver e.parts e'.parts
+  eps.all fun e' => !(«matches» e'.parts u) || specLE e'.parts e.parts ||
+    (passedOver e.parts e'.parts && shadowed (eps.map (·.parts)) e'.parts u)
 
 def globalsOk (g : Globals) (a : Answer) : Bool :=
   a.grem == (g.remedies.filter (·.enabled)).map (·.name) &&
